@@ -881,13 +881,14 @@ def adjA0 (o1 : GroupOps G1) (fromE toE : Option Attr) (a0 hexp : G1) : G1 :=
   | false, true => o1.add a0 (o1.smul ((toE.map (·.id)).getD 0) hexp)
   | false, false => a0
 
-theorem adjustNdLoop_cons (idx : Nat) (hexp : G1) (ps : List (Nat × G1)) (from_ to_ : List Attr)
-    (a0 : G1) (b : List (Nat × G1)) :
-    adjustNdLoop o1 ((idx, hexp) :: ps) from_ to_ a0 b =
-      adjustNdLoop o1 ps (from_.dropWhile (·.idx < idx)) (to_.dropWhile (·.idx < idx))
+theorem adjustNdLoop_cons (tom : Bool) (idx : Nat) (hexp : G1) (ps : List (Nat × G1))
+    (from_ to_ : List Attr) (a0 : G1) (b : List (Nat × G1)) :
+    adjustNdLoop o1 tom ((idx, hexp) :: ps) from_ to_ a0 b =
+      adjustNdLoop o1 tom ps (from_.dropWhile (·.idx < idx)) (to_.dropWhile (·.idx < idx))
         (adjA0 o1 (headAt (from_.dropWhile (·.idx < idx)) idx)
           (headAt (to_.dropWhile (·.idx < idx)) idx) a0 hexp)
-        (if (headAt (to_.dropWhile (·.idx < idx)) idx).isNone then (idx, hexp) :: b else b) := by
+        (if (headAt (to_.dropWhile (·.idx < idx)) idx).isNone && !tom then (idx, hexp) :: b
+          else b) := by
   rfl
 
 /-- what an attribute (if any) contributes to `a0` for a parent element `bx`. -/
@@ -952,13 +953,13 @@ theorem headAt_dropWhile {attrs : List Attr} (hasc : Asc attrs) (idx : Nat) :
 /-- strictly ascending slot indices in a key's `b` list. -/
 def AscB (ps : List (Nat × G1)) : Prop := ps.Pairwise (fun p q => p.1 < q.1)
 
-theorem adjustNdLoop_spec (L1 : Lawful o1) (hr : ExpR G1) :
+theorem adjustNdLoop_spec (L1 : Lawful o1) (hr : ExpR G1) (tom : Bool) :
     ∀ (ps : List (Nat × G1)) (from_ to_ : List Attr) (a0 : G1) (b : List (Nat × G1)),
       AscB ps → Asc from_ → Asc to_ →
-      adjustNdLoop o1 ps from_ to_ a0 b =
+      adjustNdLoop o1 tom ps from_ to_ a0 b =
         (a0 + (ps.map (fun p => ndS (to_.find? (·.idx == p.1)) p.2
                                 - ndS (from_.find? (·.idx == p.1)) p.2)).sum,
-         b.reverse ++ ps.filter (fun p => (to_.find? (·.idx == p.1)).isNone)) := by
+         b.reverse ++ ps.filter (fun p => (to_.find? (·.idx == p.1)).isNone && !tom)) := by
   intro ps
   induction ps with
   | nil => intros; simp [adjustNdLoop]
@@ -976,8 +977,8 @@ theorem adjustNdLoop_spec (L1 : Lawful o1) (hr : ExpR G1) :
       intro q hq
       have hle : idx ≤ q.1 := Nat.le_of_lt (hpc.1 q hq)
       rw [find?_dropWhile _ hle, find?_dropWhile _ hle]
-    have hfil : ps.filter (fun p => ((to_.dropWhile (·.idx < idx)).find? (·.idx == p.1)).isNone)
-        = ps.filter (fun p => (to_.find? (·.idx == p.1)).isNone) := by
+    have hfil : ps.filter (fun p => ((to_.dropWhile (·.idx < idx)).find? (·.idx == p.1)).isNone && !tom)
+        = ps.filter (fun p => (to_.find? (·.idx == p.1)).isNone && !tom) := by
       apply List.filter_congr
       intro q hq
       have hle : idx ≤ q.1 := Nat.le_of_lt (hpc.1 q hq)
@@ -986,7 +987,7 @@ theorem adjustNdLoop_spec (L1 : Lawful o1) (hr : ExpR G1) :
     simp only [List.map_cons, List.sum_cons, List.filter_cons]
     refine Prod.ext ?_ ?_
     · simp only; abel
-    · cases (to_.find? (·.idx == idx)).isNone <;> simp
+    · cases (to_.find? (·.idx == idx)).isNone <;> cases tom <;> simp
 
 end adjustnd
 
@@ -1031,10 +1032,10 @@ theorem sum_skbFrom_adjust (pb : Nat → Option G1) (lf lt : Nat → Option Attr
       rw [← ih (i + 1)]
       abel
 
-theorem filter_skbFrom (pb : Nat → Option G1) (lt : Nat → Option Attr) :
+theorem filter_skbFrom (pb : Nat → Option G1) (lt : Nat → Option Attr) (om : Bool) :
     ∀ (m i : Nat),
-      (skbFrom pb i m).filter (fun p => (lt p.1).isNone)
-        = (List.range' i m).filterMap (ndB lt pb false) := by
+      (skbFrom pb i m).filter (fun p => (lt p.1).isNone && !om)
+        = (List.range' i m).filterMap (ndB lt pb om) := by
   intro m
   induction m with
   | zero => intro i; simp [skbFrom]
@@ -1046,24 +1047,24 @@ theorem filter_skbFrom (pb : Nat → Option G1) (lt : Nat → Option Attr) :
     · rw [skbFrom_succ_some _ hp, List.range'_succ, List.filter_cons, List.filterMap_cons, ih]
       unfold ndB
       rw [hp]
-      cases lt i <;> simp
+      cases lt i <;> cases om <;> simp
 
 /-- C14, second half, for any parent whose free-slot list is `skbFrom pb 0 l`. -/
 theorem adjustNd_eq_skb (L1 : Lawful o1) (hr : ExpR G1) (parent : SecretKey G1 G2)
     (pb : Nat → Option G1) (l : Nat) (hb : parent.b = skbFrom pb 0 l) (from_ to_ : AttrList)
-    (hf : from_.wellFormed l = true) (ht : to_.wellFormed l = true) (hom : to_.omitAll = false) :
+    (hf : from_.wellFormed l = true) (ht : to_.wellFormed l = true) :
     adjustNondelegable o1 (ndQualifykey o1 l parent from_) parent from_ to_
       = ndQualifykey o1 l parent to_ := by
   unfold adjustNondelegable ndQualifykey
   rw [hb, ndQualifyLoop_spec L1 from_.find? pb from_.omitAll l 0 from_.attrs _ [] (Cur.init hf),
     ndQualifyLoop_spec L1 to_.find? pb to_.omitAll l 0 to_.attrs _ [] (Cur.init ht)]
   simp only
-  rw [adjustNdLoop_spec L1 hr _ _ _ _ _ (skbFrom_ascB pb l 0) (wellFormed_asc hf)
+  rw [adjustNdLoop_spec L1 hr _ _ _ _ _ _ (skbFrom_ascB pb l 0) (wellFormed_asc hf)
     (wellFormed_asc ht)]
   simp only [List.reverse_nil, List.nil_append]
   have h1 := sum_skbFrom_adjust pb from_.find? to_.find? l 0
-  have h2 := filter_skbFrom pb to_.find? l 0
-  rw [hom, add_assoc]
+  have h2 := filter_skbFrom pb to_.find? to_.omitAll l 0
+  rw [add_assoc]
   congr 1
   exact congrArg (parent.a0 + ·) h1
 
@@ -1138,16 +1139,16 @@ theorem ascB_eq_skbFrom : ∀ (m i : Nat) (ps : List (Nat × G1)), AscB ps →
 
 /-- C14, second half: adjusting the non-delegable key derived from `parent` for list `from_`
 to list `to_` gives the non-delegable key derived from `parent` for `to_` directly — for every
-parent key whose free-slot list is strictly ascending with indices below `l`.
-`to_.omitAll = false` is necessary: `adjust_nondelegable` never looks at that flag. -/
+parent key whose free-slot list is strictly ascending with indices below `l`, and for both
+settings of `from_.omitAll` and `to_.omitAll`. -/
 theorem adjustNd_eq (L1 : Lawful o1) (hr : ExpR G1) (parent : SecretKey G1 G2) (l : Nat)
     (hasc : AscB parent.b) (hlt : ∀ p ∈ parent.b, p.1 < l) (from_ to_ : AttrList)
-    (hf : from_.wellFormed l = true) (ht : to_.wellFormed l = true) (hom : to_.omitAll = false) :
+    (hf : from_.wellFormed l = true) (ht : to_.wellFormed l = true) :
     adjustNondelegable o1 (ndQualifykey o1 l parent from_) parent from_ to_
       = ndQualifykey o1 l parent to_ :=
   adjustNd_eq_skb L1 hr parent (lookupB parent.b) l
     (ascB_eq_skbFrom l 0 parent.b hasc (fun p hp => ⟨Nat.zero_le _, by have := hlt p hp; omega⟩))
-    from_ to_ hf ht hom
+    from_ to_ hf ht
 
 /-- the free-slot list of a canonical key is strictly ascending, indices below the length. -/
 theorem canon_b_ascB (L1 : Lawful o1) (L2 : Lawful o2) (pp : Params G1 G2 GT) (g2alpha : G1)
@@ -1752,7 +1753,7 @@ def Start.run (o1 : GroupOps G1) (o2 : GroupOps G2) (pp : Params G1 G2 GT) (g2al
 def Step.ok (π : List Slot) : Step → Bool
   | .qualify al _ => admissible π al
   | .ndQualify al => admissible π al
-  | .ndAdjust f t => admissible π f && admissible π t && !t.omitAll
+  | .ndAdjust f t => admissible π f && admissible π t
   | .resample al _ _ => al.wellFormed π.length && opens π al
 
 def Step.pattern (π : List Slot) : Step → List Slot
@@ -1819,11 +1820,11 @@ theorem step_canon (L1 : Lawful o1) (L2 : Lawful o2) (hr : ExpR G1) (pp : Params
     simp only [Step.run, hsk]
     exact ndQualify_canon L1 L2 pp g2alpha st.π st.ρ al hok
   | ndAdjust f t =>
-    simp only [Step.ok, Bool.and_eq_true, Bool.not_eq_true'] at hok
-    obtain ⟨⟨hf, ht⟩, hom⟩ := hok
+    simp only [Step.ok, Bool.and_eq_true] at hok
+    obtain ⟨hf, ht⟩ := hok
     simp only [Step.run]
     rw [adjustNd_eq L1 hr st.sk st.π.length (by rw [hsk]; exact canon_b_ascB L1 L2 pp g2alpha st.π st.ρ)
-      (by rw [hsk]; exact canon_b_lt L1 L2 pp g2alpha st.π st.ρ) f t (admissible_wf hf) (admissible_wf ht) hom, hsk]
+      (by rw [hsk]; exact canon_b_lt L1 L2 pp g2alpha st.π st.ρ) f t (admissible_wf hf) (admissible_wf ht), hsk]
     exact ndQualify_canon L1 L2 pp g2alpha st.π st.ρ t ht
   | resample al further t =>
     simp only [Step.ok, Bool.and_eq_true] at hok
